@@ -88,6 +88,8 @@ class Check(object):
         return {(i["rule"], i["construct"]) for i in self.violations()}
 
     def finish(self, explanation, rule_text, level="other", extra_cov=None, write=True):
+        if os.environ.get("VERIF_NO_EVIDENCE"):
+            write = False      # self-test runs against scratch copies must not overwrite the evidence of /repo
         known = [k for k in load_known() if k.get("property") == self.pid and k.get("status", "known") == "known"]
         kset = {(k["rule"], k["construct"]): k for k in known}
         new, old = [], []
